@@ -14,6 +14,7 @@ def parseScore? (s : String) : Option Score :=
   | [t, m, k] => do
     let m ← m.toInt?
     let k ← k.toInt?
+    let k := if k == -2147483648 then 0 else k   -- the float -0.0 spelled out: the same value as +0.0
     let ty ← match t with
       | "H" => some ScoreType.heuristic | "M" => some .mateInX | "I" => some .inf
       | "N" => some .negInf | "X" => some .invalid | _ => none
